@@ -131,6 +131,11 @@ def in_force(P, boundary, fill_value, axnames=("AX",)):
             return "extend"
         if v == Sym("USER_FILL"):
             return 7.25
+        # the opaque Grid-level defaults of the harness grids (xmodel.make_axis) stand for this grid's defaults
+        if isinstance(v, Sym) and v.name.startswith("boundary_default_"):
+            return "fill"
+        if isinstance(v, Sym) and v.name.startswith("fill_default_"):
+            return 0.5
         return v
 
     paths, calls = run_pad(P, subst(boundary), subst(fill_value), {Sym(a): (1, 1) for a in axnames}, grid=lambda: make_grid(axnames, boundary="fill", fill_value=0.5),
